@@ -553,7 +553,7 @@ def extract_tasks(ctx, sliced, fired):
     t = rw.sub(s.text, r'~stage_task\(\) override', 'void stg_dtor(struct stage_task* self)', 1, 1, name='sig')
     t = rw.sub(t, r'(?<![\w.>])my_filter->finalize\(my_object\);', 'FILTER_FINALIZE(self->my_filter, self->my_object);', 0, None, name='base_filter::finalize (destroys the item in flight)')
     t = rw.sub(t, r'my_pipeline\.wait_ctx\.release\(\);', 'WAIT_CTX_RELEASE(&self->my_pipeline->wait_ctx);', 0, None, name='wait_context::release')
-    t = rw.sub(t, r'(?<![\w.>])(my_filter|my_object)\b', r'self->\1', 0, None, name='field')
+    t = rw.sub(t, r'(?<![\w.>])(my_filter|my_object|my_token|my_token_ready|is_valid|my_at_start)\b', r'self->\1', 0, None, name='field (stage_task and its base task_info)')
     st.insert(0, rw.std(t))
     common.write(ctx, 'stage_task.inc', '\n'.join(st) + '\n')
     fired['tasks'] = rw.fired
